@@ -319,6 +319,27 @@ class Evaluator:
             if ac and bc and isinstance(av, int) and isinstance(bv, int):
                 return ast.Constant(av & bv if isinstance(node.op, ast.BitAnd) else av | bv)
             return ast.BinOp(left=a, op=node.op, right=b)
+        if isinstance(node, ast.UnaryOp) and isinstance(node.op, ast.Not):
+            ok, v = self.const_of(self.S(node.operand, path))
+            return ast.Constant(not v) if ok else node
+        if isinstance(node, ast.BoolOp):
+            vals = [self.S(v, path) for v in node.values]
+            for v in vals:      # short-circuit on literals, left to right; an undecided operand leaves the expression as it is
+                ok, c = self.const_of(v)
+                if not ok:
+                    return node
+                if bool(c) is isinstance(node.op, ast.Or):
+                    return v
+            return vals[-1]
+        if isinstance(node, ast.Compare) and len(node.ops) == 1 and isinstance(node.ops[0], (ast.Is, ast.IsNot)):
+            l, r = node.left, node.comparators[0]
+            (lc, lv), (rc, rv) = self.const_of(l), self.const_of(r)
+            if lc and rc:
+                return ast.Constant((lv is rv) if isinstance(node.ops[0], ast.Is) else (lv is not rv))
+            for x, (yc, yv) in ((l, (rc, rv)), (r, (lc, lv))):      # an exception object is not None
+                if yc and yv is None and isinstance(x, ast.Name) and x.id.startswith('<exc ') and isinstance(path.env.get(x.id), Exc):
+                    return ast.Constant(isinstance(node.ops[0], ast.IsNot))
+            return node
         if isinstance(node, ast.Call) and isinstance(node.func, ast.Name) and node.func.id == 'isinstance' and len(node.args) == 2:
             a0 = node.args[0]
             if isinstance(a0, ast.Constant) and a0.value is None:
@@ -521,6 +542,8 @@ class Evaluator:
                     return [(path, neg)]   # a literal / display / comparison result is never None
                 if isinstance(tnode, ast.Call) and isinstance(tnode.func, ast.Name) and tnode.func.id in NEVER_NONE_BUILTINS:
                     return [(path, neg)]   # open() / len() / int() ... return an object or raise
+                if isinstance(tnode, ast.Name) and tnode.id.startswith('<exc ') and isinstance(path.env.get(tnode.id), Exc):
+                    return [(path, neg)]   # a caught exception object
                 if isinstance(tnode, (ast.IfExp,)):
                     out = []
                     for p, b in self.cond_resolved(tnode.test, path):
